@@ -813,6 +813,13 @@ def install_election(ex):
                         items = C.concrete_items(outs[0].val, outs[0].st)
                         if items is not None and len(items) == 1 and isinstance(items[0], SInt):
                             return ('at-cid', items[0].t)
+                        v_ = outs[0].val
+                        # `b.topRank in [c.cid for c in L]`: the sweep of a whole set of candidates (a batch)
+                        if isinstance(v_, SAbs) and getattr(v_, 'src', None) is not None and getattr(v_, 'fn', None) is not None \
+                                and v_.src.ek == 'ref:' + CAND:
+                            probe = z3.Int('c!probe')
+                            if v_.fn(probe).eq(z3.Select(C.heap_array(outs[0].st, CAND, 'cid', 'int'), probe)):
+                                return ('set', v_.src)
         return None
 
     def swept_candidate(sw, st, fr):
@@ -833,6 +840,60 @@ def install_election(ex):
     def ledger_G(st):
         return ghost_get(st, 'G').t
 
+    def same_list(a, b):
+        "two abstract collections with the same membership predicate (a comprehension's source wraps the list it iterates)"
+        if a is b:
+            return True
+        try:
+            p = z3.Int('c!same')
+            return z3.simplify(a.mem(p)).eq(z3.simplify(b.mem(p)))
+        except Exception:
+            return False
+
+    def set_sum(src, vs):
+        """sumB(A) = sum of A[c] over the members c of the candidate list src: an uninterpreted function of the array with its
+        update law (sum-update lemma, quantified over arrays); one per list object"""
+        cached = getattr(src, '_ledger_sum', None)
+        if cached is not None:
+            return cached
+        AS = z3.ArraySort(I, vs)
+        f = z3.Function(fresh_name('sumB'), AS, vs)
+        src._ledger_sum = f
+        return f
+
+    def set_sum_axiom(src, f, vs):
+        A = z3.Const('A!sumB', z3.ArraySort(I, vs))
+        i, x = z3.Int('i!sumB'), z3.Const('x!sumB', vs)
+        return z3.ForAll([A, i, x], f(z3.Store(A, i, x)) == f(A) + z3.If(src.mem(i), x - z3.Select(A, i), 0),
+                         patterns=[f(z3.Store(A, i, x))])
+
+    def set_sweep_invariants(src, pre, visited_at, varr0, T0, G0, vs):
+        """sweep over the ballots standing with ANY member of a list of (just excluded) candidates: what is credited is the value
+        leaving the members' piles, summed over the list"""
+        f = set_sum(src, vs)
+        c, b = z3.Int('c!led'), z3.Int('b!led')
+        mB = src.mem
+        ex.col.assumed.add('ledger: sum over a list of candidates (sumB: update law, all-zero and pointwise-equal lemmas) (model)')
+
+        def ax(st, it):
+            st.ghost['ledger_set'] = (src, f, G0, vs)
+            return [set_sum_axiom(src, f, vs)]
+        invs = [('[C02,C06] ledger: tallies of candidates outside the batch move with the value of the ballots standing with them',
+                 lambda st, it: z3.ForAll([c], z3.Implies(z3.And(inC(c), z3.Not(mB(c))),
+                     z3.Select(C.heap_array(st, CAND, 'vote', 'val'), c) - z3.Select(ledger_G(st), c) ==
+                     z3.Select(varr0, c) - z3.Select(G0, c)))),
+                ('[C02,C06] ledger: a ballot already visited no longer stands with a candidate of the batch',
+                 lambda st, it: (lambda va: z3.ForAll([b], z3.Implies(z3.And(isBallot(b), va(b)), z3.Not(mB(top_of(C, st, b))))))(visited_at(it))
+                 if visited_at(it) is not None else None),
+                ('[C02] ledger: no tally decreases while ballots are transferred',
+                 lambda st, it: z3.ForAll([c], z3.Select(C.heap_array(st, CAND, 'vote', 'val'), c) >= z3.Select(varr0, c))),
+                ('[C02] ledger: what has been credited is exactly the value that left the piles of the batch',
+                 lambda st, it: ledger_T(st) - T0 == f(G0) - f(ledger_G(st)))]
+        exh0 = z3.Select(C.heap_array(pre, ELEC, 'exhausted', 'val'), THE_E)
+        invs.append(('[C02] ledger: the non-transferable total does not decrease while ballots are transferred',
+                     lambda st, it: z3.Select(C.heap_array(st, ELEC, 'exhausted', 'val'), THE_E) >= exh0))
+        return invs, ax
+
     def loop_declared(C_, kind, s, L, W, pre, fr, visited_at):
         """ledger invariants of the ballot sweeps (obligations like any declared invariant):
         sweep over all ballots crediting each ballot's value to the candidate it stands with: tallies and total follow the
@@ -841,6 +902,17 @@ def install_election(ex):
         if not ledger_on(ex) or kind != 'for':
             return [], None
         sw = sweep_of(s, pre, fr)
+        ls = pre.ghost.get('ledger_set')
+        if sw is None and ls is not None and L is not None and same_list(L, ls[0]) and (CAND, 'vote') in W.heap and (CAND, 'state') not in W.heap:
+            # `for c in batch: c.vote = V0` after the sweep of the batch: the total drops by what the members held
+            src, f, G0s, vs_ = ls[:4]
+            varr_z = C.heap_array(pre, CAND, 'vote', 'val')
+            Tz = ledger_T(pre)
+
+            def axz(st, it):
+                return [set_sum_axiom(src, f, vs_)]
+            return [('[C02] ledger: resetting the tallies of the batch takes off exactly what its members held',
+                     lambda st, it: ledger_T(st) == Tz - f(varr_z) + f(C.heap_array(st, CAND, 'vote', 'val')))], axz
         if sw is None or (CAND, 'vote') not in W.heap:
             return [], None
         real = ex.instance == 'real'
@@ -901,6 +973,10 @@ def install_election(ex):
                     ('[C02] ledger: no tally decreases while the ballots are credited',
                      lambda st, it: z3.ForAll([c], z3.Select(C.heap_array(st, CAND, 'vote', 'val'), c) >= z3.Select(varr0, c)))]
             return invs, ax
+        if sw[0] == 'set':
+            if (BALLOT, 'weight') in W.heap:
+                return [], None
+            return set_sweep_invariants(sw[1], pre, visited_at, varr0, T0, G0, vs)
         # sweep over the ballots standing with candidate X
         hc = swept_candidate(sw, pre, fr)
         if hc is None:
@@ -962,6 +1038,50 @@ def install_election(ex):
             ex_head.assume(ghost_get(ex_head, 'Tm').t == z3.Select(C.heap_array(ex_head, ELEC, 'residual', 'val'), THE_E))
             return
         sw = sweep_of(s, pre, fr)
+        ls = pre.ghost.get('ledger_set')
+        fname_ = fr.func.qualname if fr.func else '?'
+        if sw is not None and sw[0] == 'set':
+            src = sw[1]
+            vs_ = R if ex.instance == 'real' else I
+            f = set_sum(src, vs_)
+            b, c = z3.Int('b!es'), z3.Int('c!es')
+            none_left = z3.ForAll([b], z3.Implies(isBallot(b), z3.Not(src.mem(top_of(C, ex_head, b)))))
+            # the members held exactly the value of their piles when the sweep began (they were continuing candidates until then)
+            varr0 = C.heap_array(pre, CAND, 'vote', 'val')
+            G0 = ledger_G(pre)
+            same = z3.ForAll([c], z3.Implies(src.mem(c), z3.Select(varr0, c) == z3.Select(G0, c)))
+            if not getattr(ex, 'muted', 0):
+                k = C.site_anchor_n(fname_, 'sweep-complete', getattr(s, 'lineno', 0))
+                ex.col.add('INV', ['C02', 'C06'], fname_, 'sweep@%d:complete' % k,
+                           'when a sweep of the ballots standing with a batch of candidates ends, no ballot stands with any of them',
+                           C.assumptions(ex_head), none_left)
+                ex.col.add('INV', ['C02', 'C06'], fname_, 'sweep@%d:batch-held-their-piles' % k,
+                           'each candidate of the batch held exactly the value of the ballots standing with it when the sweep began',
+                           C.assumptions(pre), same)
+            Gx = ledger_G(ex_head)
+            ex_head.assume(z3.ForAll([c], z3.Implies(src.mem(c), z3.Select(Gx, c) == 0)))     # empty-sum lemma, per member
+            ex_head.assume(f(Gx) == 0)                                                           # all-zero lemma
+            ex_head.assume(f(varr0) == f(G0))                                                    # pointwise-equal lemma
+            ex_head.ghost['ledger_set'] = (src, f, G0, vs_, varr0)
+            return
+        if sw is None and ls is not None and L is not None and same_list(L, ls[0]) and (CAND, 'vote') in W.heap and (CAND, 'state') not in W.heap:
+            src, f = ls[0], ls[1]
+            c = z3.Int('c!es')
+            varr_x = C.heap_array(ex_head, CAND, 'vote', 'val')
+            varr_z = C.heap_array(pre, CAND, 'vote', 'val')
+            allzero = z3.ForAll([c], z3.Implies(src.mem(c), z3.Select(varr_x, c) == 0))
+            if not getattr(ex, 'muted', 0):
+                ex.col.add('INV', ['C02'], fname_, 'batch-reset:complete', 'after the reset loop every candidate of the batch holds no votes',
+                           C.assumptions(ex_head), allzero)
+            ex_head.assume(f(varr_x) == 0)                                                       # all-zero lemma
+            if len(ls) > 4:
+                # the members' tallies were not touched between the start of the sweep and the reset (they are not hopeful)
+                unch = z3.ForAll([c], z3.Implies(src.mem(c), z3.Select(varr_z, c) == z3.Select(ls[4], c)))
+                if not getattr(ex, 'muted', 0):
+                    ex.col.add('INV', ['C02'], fname_, 'batch-reset:tallies-untouched',
+                               'between the start of the sweep and the reset the tallies of the batch were not touched', C.assumptions(pre), unch)
+                ex_head.assume(f(varr_z) == f(ls[4]))                                            # pointwise-equal lemma
+            return
         if sw is None or sw[0] not in ('at', 'at-cid'):
             return
         hc = swept_candidate(sw, pre, fr)
